@@ -544,13 +544,21 @@ theorem edits_aligned (ctx : Ctx) (s t : List Nat × List Ref) (h : EditSteps ct
       subst e1; subst e2
       exact hal
 
-/-! ## TranslateRaw: only the entity field of the affected references changes -/
+/-! ## TranslateRaw: only the name bytes of the affected references change -/
 
-/-- **translateRaw_of_variant**: `TranslateRaw` re-spells exactly the entity references whose name
-the translator maps to a different name (new name, same grammemes, canonical spelling) and
-leaves every other byte — other references included — untouched. The replacement is done by
-byte offsets derived from code-point positions, right to left; the new names may be arbitrary
-bytes. -/
+/-- the found entity references spell their name inside their own range (right after `@{`). -/
+private theorem refsOf_namesInside (cps : List Nat) : NamesInside cps (refsOf cps) := by
+  intro x hx n f hd
+  have := ((refs_ordered_delimited cps).2 x hx).2
+  rw [hd] at this
+  exact Nat.le_of_lt (refOf_entity_length _ n f this)
+
+/-- **translateRaw_of_variant**: `TranslateRaw` rewrites exactly the entity references whose name
+the translator maps to a different name, and in these only the bytes of the name (the first
+field, right after `@{`) are replaced by the new name; every other byte — the tags of the
+renamed references as typed, the other references, the gaps — stays untouched
+(`translateSpec` / `translatedItem`). The replacement is done by byte offsets derived from
+code-point positions, right to left; the new names may be arbitrary bytes. -/
 theorem translateRaw_of_variant (v : Variant) (tr : Bytes → Option Bytes) (cps : List Nat)
     (hv : ∀ c ∈ cps, validCp c)
     (hscan : v.fixScan = false → hasAtAt cps = false) (hparse : candidatesParseClean v cps) :
@@ -560,17 +568,61 @@ theorem translateRaw_of_variant (v : Variant) (tr : Bytes → Option Bytes) (cps
   simp only
   have h1 : specRefs cps = (refsOf cps).map rawRef := rfl
   rw [h1, List.foldl_reverse]
-  have := translate_foldr tr cps hv (refsOf cps) 0 (refs_ordered_delimited cps).1
+  have := translate_foldr tr cps hv (refsOf cps) 0 (refs_ordered_delimited cps).1 (refsOf_namesInside cps)
   simp only [List.take_zero, encode, List.nil_append] at this
   rw [this]
   rfl
 
-/-- **translateRaw_spec**: `TranslateRaw` of the current code changes only the entity field of
-the affected entity references. -/
+/-- **translateRaw_spec**: `TranslateRaw` of the current code changes only the name bytes of the
+affected entity references (`translateSpec`: gaps byte-for-byte, every found reference replaced
+by `translatedItem`). -/
 theorem translateRaw_spec (tr : Bytes → Option Bytes) (cps : List Nat) (hv : ∀ c ∈ cps, validCp c) :
     translateRaw Variant.current tr (encode cps) = .ok (translateSpec tr cps) :=
   translateRaw_of_variant _ tr cps hv (fun h => by simp [Variant.current, Variant.repaired] at h)
     ⟨fun h => by simp [Variant.current, Variant.repaired] at h, fun h => by simp [Variant.current, Variant.repaired] at h⟩
+
+/-- **translateRaw_name_only**: for a found entity reference with name `n` that the translator maps
+to `n' ≠ n`: its original bytes are `@{` ++ `n` ++ `|`… and what `TranslateRaw` puts in its place
+(`translatedItem`, the piece woven into `translateSpec` = the result of `TranslateRaw` by
+`translateRaw_spec`) is `@{` ++ `n'` ++ the *same* bytes after the name — the tags keep their
+spelling and order, nothing is re-spelled canonically. -/
+theorem translateRaw_name_only (tr : Bytes → Option Bytes) (cps : List Nat)
+    (x : Nat × Nat × RefData) (hx : x ∈ refsOf cps) (n : Bytes) (f : Morph) (n' : Bytes)
+    (hd : x.2.2 = .entity n f) (htr : tr n = some n') (hne : n' ≠ n) :
+    ∃ tl, encode (slice cps x.1 x.2.1) = [cAt, cOpen] ++ n ++ cBar :: tl ∧
+      (translatedItem tr cps x).text = [cAt, cOpen] ++ n' ++ cBar :: tl := by
+  obtain ⟨hdel, href⟩ := (refs_ordered_delimited cps).2 x hx
+  rw [hd] at href
+  obtain ⟨_, tl, hsplit, hlen⟩ := refOf_entity_prefix _ n f href
+  have h2 := cand_take2 cps (x.1, x.2.1) hdel
+  simp only at h2
+  rw [h2] at hsplit
+  refine ⟨tl, hsplit, ?_⟩
+  unfold translatedItem
+  simp only [hd, htr, if_neg hne]
+  rw [h2]
+  congr 1
+  conv => lhs; rw [hsplit]
+  rw [show 2 + n.length = ([cAt, cOpen] ++ n).length by simp; omega, List.drop_left]
+
+/-- `@{X1|nomn,sing}` (tags in typed, non-canonical order) -/
+def exRename : List Nat := [64, 123, 88, 49, 124, 110, 111, 109, 110, 44, 115, 105, 110, 103, 125]
+/-- the translator `X1 ↦ X2` -/
+def exRenameTr : Bytes → Option Bytes := fun n => if n = [88, 49] then some [88, 50] else none
+
+/-- **translateRaw_name_only_example**: `@{X1|nomn,sing}` under `X1 ↦ X2` becomes
+`@{X2|nomn,sing}` — the tags keep their typed order (the canonical spelling would be
+`@{X2|sing,nomn}`). -/
+theorem translateRaw_name_only_example :
+    translateRaw Variant.current exRenameTr (encode exRename) =
+      .ok [64, 123, 88, 50, 124, 110, 111, 109, 110, 44, 115, 105, 110, 103, 125] ∧
+    (RefData.entity [88, 50] [25, 30]).toString =
+      [64, 123, 88, 50, 124, 115, 105, 110, 103, 44, 110, 111, 109, 110, 125] := by
+  decide
+
+-- non-vacuity of `translateRaw_name_only` on this input
+example : (0, 15, RefData.entity [88, 49] [25, 30]) ∈ refsOf exRename ∧
+    exRenameTr [88, 49] = some [88, 50] := by decide
 
 /-! ## FirstIn -/
 
